@@ -381,6 +381,12 @@ func (x *Exec) dispatchInner(s *State, e *ast.CallExpr, c callee, recv *Val, arg
 		if fc := x.funcFieldContract(e); fc != nil {
 			return x.applyContract(s, fc, nil, c.sig, recv, args, pos, exprString(e.Fun))
 		}
+		if n, ok := types.Unalias(x.typeOf(e.Fun)).(*types.Named); ok && n.Obj().Pkg() != nil && n.Obj().Pkg().Path() == "context" &&
+			(n.Obj().Name() == "CancelFunc" || n.Obj().Name() == "CancelCauseFunc") {
+			// cancelling a context writes nothing the verified code reads (Done/Err are modelled as nondeterministic)
+			x.eng.note("calling a context.CancelFunc has no effect on the heap")
+			return Val{K: KTuple}
+		}
 		return x.havocCall(s, c.sig, exprString(e.Fun), recv, args, pos)
 	}
 	fn := c.fn.Origin()
@@ -995,6 +1001,17 @@ func (x *Exec) havocTarget(s *State, env *SpecEnv, m *SpecExpr) {
 	switch t := m.E.(type) {
 	case *ast.IndexExpr: // s[*] or s[i]
 		b := e.eval(t.X)
+		if _, isMap := under(b.T).(*types.Map); isMap && b.K == KInt {
+			// m[*]: the contents of the map object m (whole-map granularity)
+			pres, ps, _, vs, names := x.mapArrays(s, b.T)
+			cur := s.heapGet(pres, ps)
+			s.heapSet(pres, ps, mkSto(cur, b.S, x.eng.fresh("hv", ps[len("(Array Int "):len(ps)-1])), b.S)
+			for i := range names {
+				c := s.heapGet(names[i], vs[i])
+				s.heapSet(names[i], vs[i], mkSto(c, b.S, x.eng.fresh("hv", vs[i][len("(Array Int "):len(vs[i])-1])), b.S)
+			}
+			return
+		}
 		if b.K != KSlice {
 			e.fail("modifies: %s is not a slice", exprString(t.X))
 		}
